@@ -261,8 +261,111 @@ def r1_coef_identities(ctx):
                                            "rb": repr(rb[x])})
 
 
+# ---------------------------------------------------------------------------
+# C01-R3  partition-space typing, C01-R5 state-half typing (same engine)
+def r3_partition_typing(ctx):
+    from . import ode_spaces as O
+    U, E, X = O.mode_U(), O.mode_E(), O.exp2_attrs()
+    plan = [
+        (O.BASE, "_BaseODE._init_dv", U, "mode U"), (O.BASE, "_BaseODE._init_dv", E, "mode E"),
+        (O.BASE, "_BaseODE._init_dva", U, "mode U"), (O.BASE, "_BaseODE._init_dva_part", U, "mode U"),
+        (O.BASE, "_BaseODE._calc_acce_kdof", U, "mode U"), (O.BASE, "_BaseODE._calc_acce_kdof", E, "mode E"),
+        (O.BASE, "_BaseODE._inv_mrb", U, "before re-partition"),
+        (O.BASE, "_BaseODE._build_A", U, "mode U"),
+        (O.UNC, "SolveUnc.get_su_eig", U, "entry: mode U tables"),
+        (O.UNC, "SolveUnc._solve_real_unc", U, "mode U"),
+        (O.UNC, "SolveUnc._solve_real_unc_cdforces", U, "mode U"),
+        (O.UNC, "SolveUnc._solve_complex_unc", E, "mode E"),
+        (O.SE2, "SolveExp2.__init__", X, "SolveExp2"),
+        (O.SE2, "SolveExp2.tsolve", X, "SolveExp2"),
+    ]
+    tot = 0
+    for rel, q, attrs, label in plan:
+        extra = None
+        if q.endswith("SolveExp2.__init__"):
+            from .e3_spaces import Arr
+            extra = {"E": Arr("S2", "S2")}
+        T, okn, nbad = O.type_function(ctx, rel, q, attrs, label, extra, rule="C01-R3")
+        tot += okn + nbad
+    O.check_su_coef_call(ctx, U, "C01-R3")
+    # SolveExp2.__init__: the four blocks of E are named after the halves they connect
+    fn = ctx.src.func(O.SE2, "SolveExp2.__init__")
+    want = {"E_vv": ("v", "v"), "E_vd": ("v", "d"), "E_dv": ("d", "v"), "E_dd": ("d", "d")}
+    from .e3_spaces import Arr, Typer
+    T = Typer(X, {"E": Arr("S2", "S2")}, O.SIZE_NAMES)
+    for st in walk_no_nested(fn):
+        if isinstance(st, ast.Assign) and isinstance(st.targets[0], ast.Attribute) and st.targets[0].attr in want:
+            t = T.ty(st.value)
+            nm = st.targets[0].attr
+            ok = isinstance(t, Arr) and t.r == want[nm]
+            ctx.check(ok, f"SolveExp2.__init__: self.{nm} is the ({want[nm][0]}, {want[nm][1]}) block of E for the [v; d] state of _build_A", st,
+                      None if ok else repr(t), key=f"C01-R5|SolveExp2.__init__|{nm}")
+    # the [v; d] layout itself: _build_A puts the velocity equations in rows :n (A[v2, v1] = 1 is d' = v)
+    fb = ctx.src.func(O.BASE, "_BaseODE._build_A")
+    txt = ast.unparse(fb).replace(" ", "")
+    ok = "A[v2,v1]=1.0" in txt and "v1=range(n)" in txt and "v2=range(n,2*n)" in txt and "A[:n,:n]=-self.b" in txt and "A[:n,n:]=-self.k" in txt
+    ctx.check(ok, "_build_A: state is [v; d] (rows :n are the velocity equations -b v - k d, rows n: are d' = v)", fb)
+
+
+def r4_frame_typing(ctx):
+    """pre_eig path: every user array that reaches the modal work arrays through _init_dv is mapped to modal coordinates"""
+    from . import ode_spaces as O
+    fn = ctx.src.func(O.BASE, "_BaseODE._init_dva")
+    # statements under `if self.pre_eig:` that rebind a name through self.phi
+    mapped = {}
+    for st in walk_no_nested(fn):
+        if isinstance(st, ast.If) and ast.unparse(st.test).replace(" ", "") == "self.pre_eig":
+            for s2 in ast.walk(st):
+                if isinstance(s2, ast.Assign) and isinstance(s2.targets[0], ast.Name) and "self.phi" in ast.unparse(s2.value):
+                    mapped[s2.targets[0].id] = s2
+    call = [n for n in walk_no_nested(fn) if isinstance(n, ast.Call) and dotted(n.func) == "self._init_dv"]
+    if len(call) != 1:
+        raise AnchorError("_init_dva: call to self._init_dv")
+    c = call[0]
+    # which arguments of _init_dv are user data in physical coordinates?  (d, v are the work arrays)
+    tgt = ctx.src.func(O.BASE, "_BaseODE._init_dv")
+    pnames = [a.arg for a in tgt.args.args][1:]
+    user = {}
+    for pn, arg in zip(pnames, c.args):
+        roots = {n.id for n in ast.walk(arg) if isinstance(n, ast.Name)}
+        user[pn] = roots
+    params = {a.arg for a in fn.args.args}
+    for pn in ("d0", "v0", "F0"):
+        if pn not in user:
+            ctx.error(f"_init_dv parameter {pn}", tgt)
+            continue
+        roots = user[pn] & params
+        for r in sorted(roots):
+            ok = r in mapped
+            ctx.check(ok, f"_init_dva (pre_eig): user array `{r}` passed to _init_dv as `{pn}` is first mapped to modal coordinates through self.phi",
+                      c, None if ok else f"`{r}` is in physical coordinates but is stored into the modal work arrays by _init_dv "
+                                         f"(d[self.nonrf, 0] = d0[self.nonrf]); witness: coupled system, pre_eig=True, non-zero {r}: sol.{r[0]}[:, 0] != {r}",
+                      key=f"C01-R4|_BaseODE._init_dva|{r} not mapped by phi")
+    # the way back: _solution / _solution_freq map d, v, a with phi on the same flag
+    for q in ("_BaseODE._solution", "_BaseODE._solution_freq"):
+        f2 = ctx.src.func(O.BASE, q)
+        txt = ast.unparse(f2).replace(" ", "")
+        ok = all(f"{x}=self.phi@{x}" in txt for x in "dva") and "ifself.pre_eig:" in txt
+        ctx.check(ok, f"{q}: d, v, a are mapped back with self.phi when pre_eig", f2)
+    # _do_pre_eig: phi diagonalises (k, m); b is transformed by the same phi; m becomes None (identity)
+    f3 = ctx.src.func(O.BASE, "_BaseODE._do_pre_eig")
+    txt = ast.unparse(f3).replace(" ", "")
+    ok = "w,u=la.eigh(k,m)" in txt and "w,u=la.eigh(k)" in txt and "self.phi=u" in txt and "m=None" in txt and "k=w" in txt \
+        and "b=u.T@b@u" in txt and "b=u.T*b@u" in txt
+    ctx.check(ok, "_do_pre_eig: phi = eigenvectors of (k, m); m -> None, k -> w, b -> phi.T b phi (both 1-D and 2-D b)", f3)
+    # generator refuses pre_eig before any array is shared
+    f4 = ctx.src.func(O.BASE, "_BaseODE._init_dva_part")
+    first_alloc = min((n.lineno for n in ast.walk(f4) if isinstance(n, ast.Call) and dotted(n.func) == "self._alloc_dva"), default=None)
+    guard = [n for n in f4.body if isinstance(n, ast.If) and ast.unparse(n.test).replace(" ", "") == "self.pre_eig"
+             and any(isinstance(x, ast.Raise) for x in n.body)]
+    ok = bool(guard) and first_alloc is not None and guard[0].lineno < first_alloc
+    ctx.check(ok, "_init_dva_part (generator path): pre_eig is refused before any array is allocated", f4)
+
+
 RULES = [
     ("C01-R1", r1_coef_identities, 150),
+    ("C01-R3", r3_partition_typing, 60),
+    ("C01-R4", r4_frame_typing, 6),
 ]
 
 LEVEL = "other"
